@@ -76,6 +76,17 @@ impl Epoch {
     }
 }
 
+#[cfg(feature = "circ_verif")]
+impl Epoch {
+    pub(crate) fn verif_from_value(value: usize) -> Self {
+        Self { data: value << 1 }
+    }
+
+    pub(crate) fn verif_data(self) -> usize {
+        self.data
+    }
+}
+
 /// An atomic value that holds an `Epoch`.
 #[derive(Default, Debug)]
 pub(crate) struct AtomicEpoch {
